@@ -476,6 +476,28 @@ def extra_cases(tier):
                 op('extra/block_jacobi_indexed/index-set-of-%d' % len(ib), amg_core.block_jacobi_indexed, Bp, Bj, Bx, x.copy(), b, dinv, ib, om, bs)
     yield 'extra/empty-index-sets', empty_index_sets
 
+    def big_blocks():
+        # block sizes around the powers of two a small-buffer optimisation would pick (7, 8, 15, 16, 17, 32, 33)
+        rs = np.random.RandomState(11)
+        G = sp.csr_array(gal.poisson((3,), format='csr'))
+        om = np.array([0.9])
+        for bs in (7, 8, 15, 16, 17, 32, 33):
+            Ab = sp.bsr_array(sp.kron(G, np.eye(bs) + 0.01 * rs.rand(bs, bs)), blocksize=(bs, bs))
+            Bp, Bj, Bx = Ab.indptr.astype(I), Ab.indices.astype(I), np.ravel(Ab.data).copy()
+            nb = Ab.shape[0] // bs
+            n = Ab.shape[0]
+            x, b = rs.rand(n), rs.rand(n)
+            dinv = np.tile(np.eye(bs).ravel(), nb)
+            for r3 in ((0, nb, 1), (nb - 1, -1, -1)):
+                op('extra/bsr_gauss_seidel/blocksize=%d' % bs, amg_core.bsr_gauss_seidel, Bp, Bj, Bx, x.copy(), b, *r3, bs)
+                op('extra/block_gauss_seidel/blocksize=%d' % bs, amg_core.block_gauss_seidel, Bp, Bj, Bx, x.copy(), b, dinv, *r3, bs)
+                if r3[2] == 1:          # (the Jacobi kernels are only ever called with the forward range 0..n: DESIGN 8.4, F11)
+                    op('extra/bsr_jacobi/blocksize=%d' % bs, amg_core.bsr_jacobi, Bp, Bj, Bx, x.copy(), b, np.zeros(n), *r3, bs, om)
+                    op('extra/block_jacobi/blocksize=%d' % bs, amg_core.block_jacobi, Bp, Bj, Bx, x.copy(), b, dinv, np.zeros(n), *r3, om, bs)
+            idx = np.arange(nb, dtype=I)
+            op('extra/block_jacobi_indexed/blocksize=%d' % bs, amg_core.block_jacobi_indexed, Bp, Bj, Bx, x.copy(), b, dinv, idx, om, bs)
+    yield 'extra/big-blocks', big_blocks
+
     def rect_blocks():
         # filter_operator / satisfy_constraints on BSR matrices with r x c blocks and K candidates, c > K, c == K, c < K
         rs = np.random.RandomState(3)
